@@ -173,11 +173,9 @@ theorem der_sound (e : E ℝ) (x : ℕ → ℝ → ℝ) (dx : ℕ → Option ℝ
   | exp a iha =>
     simp only [E.ok] at hok
     have ha := iha hok
-    show HasDerivAt (fun s => Real.exp (a.val (fun n => x n s))) ((dFacR _ _).getD 0) t
-    rw [getD_dFacR]
-    refine ha.exp.congr_deriv ?_
-    show _ = _ * Real.exp _
-    ring
+    show HasDerivAt (fun s => Real.exp (a.val (fun n => x n s))) ((dFac _ _).getD 0) t
+    rw [getD_dFac]
+    exact ha.exp
   | log a iha =>
     simp only [E.ok, Bool.and_eq_true, lt_real, zero_real] at hok
     have ha := iha hok.1
@@ -203,6 +201,12 @@ theorem der_sound (e : E ℝ) (x : ℕ → ℝ → ℝ) (dx : ℕ → Option ℝ
       ((dAtan2 _ _ _ _).getD 0) t
     rw [getD_dAtan2]
     exact hasDerivAt_atan2R hy hz hok.2
+  | sgn a iha =>
+    simp only [E.ok, Bool.and_eq_true, nz_real] at hok
+    exact hasDerivAt_step _ _ (iha hok.1) hok.2
+  | isneg a iha =>
+    simp only [E.ok, Bool.and_eq_true, nz_real] at hok
+    exact hasDerivAt_step _ _ (iha hok.1) hok.2
 
 
 /-- non-vacuity of `der_sound`: `sqrt(x0) * sin(x1) / x2` with all three operands carrying the key, at
